@@ -8,24 +8,44 @@ spec  = Spec/C05Line.v (DWARF 6.2 state machine) and Spec/C05Header.v (expected 
 import io
 from tools.lib.framework import impl_call
 
-CLAIMED = False
+CLAIMED = True
 CONFIG = {'assumptions': [
     'rows compare the 12 state-machine registers; is_stmt by truth value',
     'a v5 header without directories/file names leaves include_directory/file_entry None: compared as empty',
     'unknown STANDARD opcodes (13 <= op < opcode_base), DW_FORM_strx* in v5 tables, vendor content types '
     'without a name in ENUM_DW_LNCT, DW_LNE_define_file in a version 5 program and extended instructions '
     'whose declared length differs from their operands are outside the property (DESIGN 5)',
-    'line_program_for_CU: the unit and its line program use the same DWARF format and address size']}
-LEVEL = {'text': 'Machine-checked: for every header parameter set and every instruction list the model of '
-                 'LineProgram._decode_line_program emits exactly the rows of the DWARF 6.2 state machine written '
-                 'from the standard (induction over the program, simulation between LineState and the registers), '
-                 'consuming exactly the encoded extent; header round trip for versions 2-5 incl. v5 entry formats; '
-                 'program_for_unit with the offset cache; DW_LNS/DW_LNE/LNCT/form tables regenerated from the live '
-                 'modules and proved equal to the standard numbering. The model is pinned to the code by '
-                 'correspondence over generated programs through the real LineProgram/DWARFInfo entry points.',
+    'line_program_for_CU: the unit and its line program use the same DWARF format and address size',
+    'unit_length < 2^32 - 16 (32-bit format) and header_length representable: generated units are a few KB',
+    'real objects: llvm-dwarfdump 14 is the reference consumer; its rows were computed when the corpus was built, '
+    'the check itself runs no external tool']}
+LEVEL = {'text': 'Machine-checked (Props/C05.v, 18 theorems, closed under the global context): C05_rows_equal / '
+                 'C05_decode_instrs - for every header parameter set of the domain, both byte orders and address '
+                 'sizes, every instruction list and EVERY valid encoding of it (padded LEB128, padded lengths) the '
+                 'model of LineProgram._decode_line_program emits exactly the rows of the DWARF 6.2 state machine '
+                 'written from the standard (induction over the program; per-instruction simulation C05_step), stops '
+                 'at distance 0 from the declared end and leaves the stream at the next byte, fuel never runs out; '
+                 'C05_header_parse / C05_resolve_strings / C05_header_roundtrip - the model of Dwarf_lineprog_header '
+                 '(v2-v5, DWARF32/64, v5 entry formats over string, line_strp, strp, udata, data1/2/4/8/16, block) '
+                 'and of _parse_line_program_at_offset returns the encoded tables, the resolved strings, the legacy '
+                 'include_directory/file_entry arrays and the extent [first program byte, end of unit) for a unit '
+                 'placed anywhere in .debug_line; C05_unit_rows - the composition (header + get_entries); '
+                 'C05_program_for_unit - line_program_for_CU returns the program at DW_AT_stmt_list through a '
+                 'coherent offset cache; C05_gen_* - DW_LNS/DW_LNE/LNCT numbers and the form -> parser bindings '
+                 'regenerated from the live modules equal the standard tables; C05_*encoder_in_relation / '
+                 'C05_checked_unit_rows - every generated case the driver certifies is an instance of the theorems. '
+                 'The hand models are pinned to the code by correspondence through the real LineProgram, '
+                 'DWARFInfo._parse_line_program_at_offset and line_program_for_CU entry points.',
          'design_ref': '4.5', 'technique': 'Coq proof (simulation by induction) + extracted-model correspondence',
-         'note': 'Trusted: Coq kernel, extraction, harness, the transcription of DWARF 6.2 in Spec/C05*.v. '
-                 'Modelled not verified: construct Struct/Enum/PrefixedArray machinery, BytesIO, DIE parsing (C04).'}
+         'note': 'Nothing left _partial. Pinned by correspondence only (not proved about the Python): that the Gallina '
+                 'models equal the Python code; construct Struct/Enum/PrefixedArray/RepeatUntilExcluding machinery, '
+                 'BytesIO seek/tell, DIE parsing that yields DW_AT_stmt_list (C04). Outside the theorems (DESIGN 5, '
+                 'in_domain=False in the harness): unknown STANDARD opcodes 13 <= op < opcode_base, strx* forms and '
+                 'unnamed vendor content types in v5 tables, DW_LNE_define_file in a v5 program, extended '
+                 'instructions whose declared length differs from their operands, two units of different '
+                 'format/address size sharing one statement-list offset (the cache is keyed by offset only). '
+                 'Three genuine defects were repaired in /repo (known_findings.d/C05.json). '
+                 'Trusted: Coq kernel, extraction, harness, the transcription of DWARF 6.2 in Spec/C05*.v.'}
 RULE = ('cases: prog = header parameters (opcode_base 1..255 incl. <13, line_range 1..255, line_base -128..127, '
         'min_inst, max_ops 1..4(+), address size 4/8, both byte orders) x instruction lists of 0..2000 instructions '
         '(all 12 standard, the 4 extended, unknown extended, every special opcode; padded LEB128; multiple sequences) '
@@ -33,8 +53,12 @@ RULE = ('cases: prog = header parameters (opcode_base 1..255 incl. <13, line_ran
         '(versions 2-5, DWARF32/64, legacy tables or v5 entry formats over string/line_strp/strp/udata/data1-16/block) '
         'laid out in one .debug_line with gaps, parsed by DWARFInfo._parse_line_program_at_offset; cu = the same '
         'through line_program_for_CU of synthesized units, repeated lookups through the cache; raw = random bytes '
-        '(model vs implementation only, out of domain). distinct = hash(kind, abstract); non-trivial = at least '
-        'one row or a table entry')
+        '(model vs implementation only, out of domain); real = the line tables of 54 real objects (18 gcc/gas and '
+        'clang builds over -gdwarf-2..5, -gdwarf64, -m32, -O0..2; every linked ELF file of the library test '
+        'directories incl. ARM, MIPS, SPARC, TI and Solaris producers) against the rows, include directories and '
+        'file names llvm-dwarfdump 14 computed for them (corpus/C05, built by tools/c05_corpus.py), real-view = all '
+        'other header fields of those, implementation vs model. distinct = hash(kind, abstract); non-trivial = at '
+        'least one row or a table entry')
 
 LNCT = [1, 2, 3, 4, 5, 0x2000, 0x2001, 0x2002, 0x3fff]
 FORMS = ['string', 'line_strp', 'strp', 'udata', 'data1', 'data2', 'data4', 'data8', 'data16', 'block']
@@ -184,6 +208,43 @@ def gen_header(rng, version, is64, addr, lsrefs, srefs, params=None):
     return [is64, version, addr, seg, params, std, incdirs, files, dfmt, dirs, ffmt, fnames]
 
 
+CORPUS_DIR = 'corpus/C05'
+
+
+def corpus(ctx):
+    """line tables of real objects (gcc/gas, clang, and the linked files of the library's test directories) with the
+    rows llvm-dwarfdump computed for them, prepared by tools/c05_corpus.py.  Quick tier: files up to 60 KB."""
+    import json, os
+    from tools.lib.framework import VERIF
+    out = []
+    d = os.path.join(str(VERIF), CORPUS_DIR)
+    hx = lambda h: None if h is None else bytes.fromhex(h)
+    for fn in sorted(os.listdir(d)) if os.path.isdir(d) else []:
+        if not fn.endswith('.json'):
+            continue
+        if os.path.getsize(os.path.join(d, fn)) > ctx.scale(60000, 10 ** 9):
+            continue
+        e = json.load(open(os.path.join(d, fn)))
+        units = [[u['offset'], u['is64'], u['addr'], u['version'], u['rows'],
+                  'skip' if u['dirs'] is None else [x.encode() for x in u['dirs']],
+                  'skip' if u['files'] is None else [[n.encode(), di] for n, di in u['files']]] for u in e['units']]
+        out.append(('real', [e['label'], e['little_endian'], hx(e['line']), hx(e['line_str']), hx(e['str']), units]))
+    return out
+
+
+def _real_projection(res, want_dirs, want_files):
+    """from ['ok', [view, decoded]] keep what the oracle also reports: rows, include directories, (file name,
+    directory index) pairs, distance of the final offset from the end of the unit"""
+    if not (isinstance(res, list) and res and res[0] == 'ok'):
+        return res
+    view, dec = res[1]
+    if not (isinstance(dec, list) and dec and dec[0] == 'ok'):
+        return dec
+    hv = view[0]
+    return [dec[1][0], hv[11] if want_dirs else 'skip', [[f[0], f[1]] for f in hv[12]] if want_files else 'skip',
+            dec[1][2]]
+
+
 def gen(ctx):
     rng = ctx.rng
     cases = []
@@ -324,11 +385,11 @@ def _dwarfinfo(le, line, line_str, strsec, info=None, abbrev=None):
         debug_aranges_sec=None,
         debug_abbrev_sec=_sec(abbrev, '.debug_abbrev') if abbrev is not None else None,
         debug_frame_sec=None, eh_frame_sec=None,
-        debug_str_sec=_sec(strsec, '.debug_str'),
+        debug_str_sec=_sec(strsec, '.debug_str') if strsec is not None else None,
         debug_loc_sec=None, debug_ranges_sec=None,
         debug_line_sec=_sec(line, '.debug_line'),
         debug_pubtypes_sec=None, debug_pubnames_sec=None, debug_addr_sec=None, debug_str_offsets_sec=None,
-        debug_line_str_sec=_sec(line_str, '.debug_line_str'),
+        debug_line_str_sec=_sec(line_str, '.debug_line_str') if line_str is not None else None,
         debug_loclists_sec=None, debug_rnglists_sec=None, debug_sup_sec=None, gnu_debugaltlink_sec=None,
         debug_types_sec=None)
 
@@ -424,6 +485,11 @@ def evaluate(ctx, cases):
             built[ci] = (data, 0, end)
             req3.append(['model_decode', [le, addr], params, version < 5, data, 0, end])
             tags3.append(ci)
+        elif kind == 'real':
+            label, le, line, line_str, strsec, units = a
+            secs = [line, line_str if line_str is not None else 'none', strsec if strsec is not None else 'none']
+            req3.append(['model_units', secs, [[[le, u[1], u[2]], u[0]] for u in units]])
+            tags3.append(ci)
         else:
             le, k, line_str, strsec, units, trail, lookups = a
             line, offs = b'', []
@@ -475,6 +541,31 @@ def evaluate(ctx, cases):
                            nontrivial=isinstance(spec, list) and len(spec[1][0]) > 0, key=_key(a, impl, spec))
             else:
                 ctx.record(kind, a, impl=impl, spec=model, model=model, in_domain=False, nontrivial=len(a[4]) > 1)
+        elif kind == 'real':
+            label, le, line, line_str, strsec, units = a
+            def run():
+                di = _dwarfinfo(le, line, line_str, strsec)
+                out = []
+                for off, is64, addr, version, rows, dirs, files in units:
+                    ds = DWARFStructs(little_endian=le, dwarf_format=64 if is64 else 32, address_size=addr)
+                    def one():
+                        lp = di._parse_line_program_at_offset(off, ds)
+                        return ['ok', [_view(lp), _decoded(lp, len(line))]]
+                    out.append(impl_call(one))
+                return out
+            impl = impl_call(run)
+            model = ans3[ci]
+            proj = lambda res: [_real_projection(r, u[5] != 'skip', u[6] != 'skip') for r, u in zip(res, units)] \
+                if isinstance(res, list) and len(res) == len(units) else res
+            exp = [[u[4], u[5], u[6], 0] for u in units]
+            ctx.bump('real_tables', '1' if len(units) == 1 else '2-9' if len(units) < 10 else '10+')
+            for u in units:
+                ctx.bump('real_version', u[3])
+            # the property on producer-made programs: rows and tables as an independent consumer computes them
+            ctx.record(kind, a, impl=proj(impl), spec=exp, model=proj(model), in_domain=True,
+                       nontrivial=any(u[4] for u in units), key='real-object-differs-from-llvm-dwarfdump')
+            # everything else the library reports (all header fields, extent): implementation vs model
+            ctx.record('real-view', a, impl=impl, spec=model, model=model, in_domain=False, nontrivial=False)
         else:
             le, k, line_str, strsec, units, trail, lookups = a
             line, offs = built[ci]
@@ -535,5 +626,9 @@ def _key(a, impl, spec):
         if diff and all(j == 5 and es == 1 for j, es in diff):
             return 'end_sequence-row-is_stmt-forced-to-0'
         if a[3][1] > 1 and diff and all(j in (0, 1) for j, _ in diff):
-            return 'vliw-op_index-ignored-by-advance_pc-const_add_pc-fixed_advance_pc-set_address'
+            ops = {i[0][0] for i in a[4]}
+            if ops & {'advance_pc', 'const_add_pc'}:
+                return 'vliw-op_index-ignored-by-advance_pc-const_add_pc'
+            if ops & {'fixed_advance_pc', 'set_address'}:
+                return 'vliw-op_index-not-reset-by-fixed_advance_pc-set_address'
     return 'prog-mismatch'
